@@ -142,6 +142,16 @@ Sink(n) ==                                   \* n more bytes of the stream hande
 AllDelivered == delivered = written /\ flight = <<>> /\ sduLeft = 0
 Quiesce == AllDelivered /\ UNCHANGED vars
 
+\* A Disconnection Request for the channel leaves one of its two endpoints.  The property promises that "a transfer
+\* always completes while the receiver keeps consuming" for every initial-credit value 1..65535 and every legal pattern
+\* of credit returns: an open channel therefore stays open until an APPLICATION asks for the disconnection.  A stack may
+\* also close a channel whose peer broke the protocol (frame without credit, MPS / MTU exceeded, a credit return that
+\* takes the sender above 65535) - but no such event is ever accepted by this monitor, so in an accepted prefix a
+\* disconnection nobody asked for is unprovoked: e.g. a sender topped up to EXACTLY 65535 credits (CapOk: legal) that
+\* treats the return as an overflow.  Closing changes none of the counters: what was written before is still owed (Quiesce).
+CloseAsked(asked) == asked
+Close(asked) == CloseAsked(asked) /\ UNCHANGED vars
+
 ----------------------------------------------------------------------------
 (* model-checking next-state relation: every choice the property leaves free is explored *)
 
